@@ -465,6 +465,18 @@ theorem run_inv {t : Table} (hwf : WF t) (ops : List Op) : Inv t (run t ops) := 
   rw [h]; exact hinv
 
 
+/-- an option whose validator is not "exception type" is not defaulted from `violation_type` -/
+theorem not_fallback_of_kind {t : Table} (hw : WF t) {n : String} {o : Opt} (ho : findOpt t n = some o)
+    (hk : o.kind ≠ .excType) : t.fallbacks.lookup n = none := by
+  cases hl : t.fallbacks.lookup n with
+  | none => rfl
+  | some fb =>
+    obtain ⟨o', ho', hk'⟩ := hw.fallback_kind _ (lookup_mem_of_some hl)
+    simp only at ho'
+    rw [ho] at ho'
+    cases ho'
+    exact absurd hk' hk
+
 /-! ## shape of the normalised arguments -/
 
 theorem normArgs_shape {t : Table} {env : Option String} {kw : RawKwargs} {a : Args}
